@@ -843,6 +843,17 @@ fn judge_inner(sc0: &Scenario, out: &RunOut, reference: &Reference, root: &Path,
             if dir_spelling(&parsed.eeprom) && es == PathState::ExactlyRight {
                 es = PathState::Wrong("the -e path ends in a slash and cannot name a file; the image was written to another path".into());
             }
+            if code_abs == eep_abs {
+                if !eeprom.is_empty() && !code.is_empty() {
+                    return None; // both images sent to one path: outside the statement
+                }
+                // one path, one image: the state of the path is the state of that image's output
+                if eeprom.is_empty() {
+                    es = PathState::Untouched;
+                } else {
+                    cs = PathState::Untouched;
+                }
+            }
             let need_code = !code.is_empty();
             let need_eep = !eeprom.is_empty();
             let code_right = cs == PathState::ExactlyRight || (!need_code && cs == PathState::Untouched);
@@ -1179,7 +1190,23 @@ pub fn scenario_shape(tier: &str, base_seed: u64, g: u64) -> Scenario {
             _ => vec!["-o".to_string(), p],
         });
     }
-    if r.chance(2, 5) {
+    // a source without EEPROM data whose flash output is sent to the very name the EEPROM file
+    // would get by default: nothing ambiguous about it (there is no EEPROM file to write), and
+    // whatever the tool does about "the EEPROM path" afterwards must leave the flash file alone
+    let mut o_is_default_eep = false;
+    if given_o.is_none() && matches!(class.as_str(), "code" | "large" | "patterned-data") && !has_raw(&src_arg) && r.chance(1, 7) {
+        let (dir, name) = match src_arg.rfind('/') {
+            Some(i) => (&src_arg[..=i], &src_arg[i + 1..]),
+            None => ("", src_arg.as_str()),
+        };
+        if let Some(stem) = Path::new(name).file_stem().and_then(|x| x.to_str()) {
+            let p = format!("{}{}.eep.hex", dir, stem);
+            given_o = Some(p.clone());
+            groups.push(vec!["-o".to_string(), p]);
+            o_is_default_eep = true;
+        }
+    }
+    if !o_is_default_eep && r.chance(2, 5) {
         let p = out_choice(&mut r, "data.eep", &mut sc);
         given_e = Some(p.clone());
         groups.push(match r.below(3) {
